@@ -249,6 +249,27 @@ func Report(p *Program, units []*Unit, o CheckOpts, work string) int {
 			}
 		}
 	}
+	// bounded stand-ins (labelled, never counted as proved): exhaustive runs of the REAL code over a stated finite domain
+	var bounded []map[string]interface{}
+	if o.Only == "" {
+		for _, bc := range loadBoundedChecks(filepath.Join(o.Verif, "bounded_checks.json"), o.Prop) {
+			t0 := time.Now()
+			failed, output := RunOverlayTest(o.Repo, o.Verif, bc.Pkg, filepath.Join(o.Verif, bc.File), bc.Run, "bounded_"+sanitize(bc.Run))
+			status := "held on every element of the stated domain"
+			if failed {
+				status = "FAILED"
+				fn := filepath.Join(replayDir, sanitize(o.Prop+"_bounded_"+bc.Name)+".txt")
+				os.WriteFile(fn, []byte("property: "+o.Prop+"\nbounded check "+bc.Name+" ("+bc.Bound+") failed on the real code\nreplay-pkg: "+bc.Pkg+"\n--- output ---\n"+trimLong(output, 4000)+"\n"), 0o644)
+				sfx := ""
+				if !strings.Contains(output, "GOCV-BOUNDED: FAIL") {
+					sfx = " no-failing-input-found"
+				}
+				fmt.Printf("VIOLATION property=%s replay=%s obligation=%s/bounded:%s%s\n", o.Prop, fn, o.Prop, bc.Name, sfx)
+				viol = append(viol, Violation{Obligation: o.Prop + "/bounded:" + bc.Name, Reason: trimLong(output, 300), Replay: fn})
+			}
+			bounded = append(bounded, map[string]interface{}{"name": bc.Name, "functions": bc.Functions, "bound": bc.Bound, "why_not_proved": bc.Why, "status": status, "seconds": round3(time.Since(t0).Seconds())})
+		}
+	}
 	seed, _ := strconv.Atoi(os.Getenv("VERIF_SEED"))
 	var assume []string
 	for k := range assumptions {
@@ -270,6 +291,7 @@ func Report(p *Program, units []*Unit, o CheckOpts, work string) int {
 			"vacuity_cover_queries": covers, "known_findings_seen": kfSeen,
 			"sampled_replays_on_real_code": map[string]int{"run": sampRun, "passed": sampPass, "units_not_replayable": sampSkip},
 			"counterexamples_replayed": nReplayed, "counterexamples_confirmed_on_real_code": nConfirmed,
+			"bounded_stand_ins_not_counted_as_proved": bounded,
 		},
 		"assumptions": assume, "wall_s": round3(time.Since(o.Start).Seconds()), "violations": len(viol),
 	}
@@ -305,6 +327,37 @@ type KnownFinding struct {
 		File string `json:"file"`
 		Run  string `json:"run"`
 	} `json:"witness"`
+}
+
+type BoundedCheck struct {
+	Property  string   `json:"property"`
+	Name      string   `json:"name"`
+	Functions []string `json:"functions"`
+	Bound     string   `json:"bound"`
+	Why       string   `json:"why_not_proved"`
+	Pkg       string   `json:"pkg"`
+	File      string   `json:"file"`
+	Run       string   `json:"run"`
+}
+
+func loadBoundedChecks(path, prop string) []BoundedCheck {
+	data, err := os.ReadFile(path)
+	if err != nil {
+		return nil
+	}
+	var doc struct {
+		Checks []BoundedCheck `json:"checks"`
+	}
+	if json.Unmarshal(data, &doc) != nil {
+		return nil
+	}
+	var out []BoundedCheck
+	for _, c := range doc.Checks {
+		if c.Property == prop {
+			out = append(out, c)
+		}
+	}
+	return out
 }
 
 func loadKnownFindings(path, prop string) []KnownFinding {
